@@ -14,7 +14,7 @@ func init() {
 	register(&Prop{
 		ID:    "C05",
 		Level: "exploration",
-		Rule:  "case = (accepted query with 1..3 aliased select fields used in WHERE operands, function arguments, other fields, ORDER BY, GROUP BY; generated store in which some rows fail the filter; batch size). Each case is executed in the four cells {cache on, cache off} x {row, batch} for the query Q and for Q' (every alias use replaced by its parenthesised definition, by the harness): (1) cache on == cache off in each mode; (2) Q == Q' in each cell; (3) every row has one column per announced field and, with key as field 0, each column equals the single value of `select <definition> where key = '<that key>'` run row mode, cache off. Equal = both complete with content-equal rows (multiset inside ORDER BY tie runs) or both fail. distinct_nontrivial counts distinct (plan-node chain, batch size, alias-use signature, rows-rejected-between-returned flag) among accepted queries that returned at least one row in the reference cell.",
+		Rule:  "case = (accepted query with 1..3 aliased select fields used in WHERE operands, function arguments, other fields, ORDER BY, GROUP BY; generated store in which some rows fail the filter; batch size). Each case is executed in the four cells {cache on, cache off} x {row, batch} for the query Q and for Q' (every alias use replaced by its parenthesised definition, by the harness): (1) cache on == cache off in each mode; (2) Q == Q' in each cell; (3) every row has one column per announced field and, with key as field 0, each column equals the single value of `select <definition> where key = '<that key>'` run row mode, cache off. Equal = both complete with content-equal rows (multiset inside ORDER BY tie runs) or both fail. distinct_nontrivial counts distinct (plan-node chain, batch size, alias-use signature, rows-rejected-between-returned flag) among accepted queries that returned at least one row in the reference cell. A rare big family uses stores of 3000..140000 pairs with one distinct value per row, batch sizes 1..4097, and aliases skipped by short-circuit for exactly 2^k(+-1) rows (k = 8, 10, 12, 16), referenced twice deep into the store, or prefix-filtered.",
 		Assumptions: []string{
 			"only accepted queries count; alias definitions reference only earlier aliases",
 			"error texts are not compared (aliased and expanded forms legitimately report different positions)",
